@@ -19,7 +19,7 @@ from sim.world import Session, classify, exc_detail, exc_signature, reference_wo
 
 PROPERTY = "C19"
 SESSIONS = {"quick": 160, "thorough": 4000}
-BUDGET_S = {"quick": 80, "thorough": 1500}
+BUDGET_S = {"quick": 110, "thorough": 1500}
 CAP_S = {"quick": 240, "thorough": 480}
 RULE = ("one session = one generated recipe (biased to projection-over-assign, projections into sources, drop_duplicates subsets, filters over "
         "shared frames); every target's optimize() is step-counted, repeated, replayed after unrelated history + GC, under GC-every-step, and in "
